@@ -309,6 +309,24 @@ def _unit_resolution(names):
         record(u, text, kind, det, "resolution")
         if kind not in ("Function", "other", "timeout"):
             u.violation(f"query:wrong-error-class:Function-expected-got-{kind}", f"{text!r}: unknown bucket must be a function error, got {kind}", {"text": text, "part": "resolution", "want": "Function"}, size=len(text))
+    # a bucket that existed when it was first queried and has been deleted since is an unknown bucket too
+    from aw_datastore import Datastore
+    from aw_datastore.storages import MemoryStorage
+
+    ds2 = Datastore(MemoryStorage, testing=True)
+    for rounds in range(2):
+        ds2.create_bucket("gone", "t", "c", "h", created=c11.T0)
+        for text in ('RETURN = query_bucket("gone");', 'RETURN = query_bucket_eventcount("gone");', 'RETURN = query_bucket(find_bucket("gon"));'):
+            kind, det = run_text(text, ds2)
+            record(u, text, kind, det, "resolution-history")
+            if kind != "value":
+                u.violation(f"query:existing-bucket-rejected-{kind}", f"{text!r} on an existing bucket: {kind} {det}", {"text": text, "part": "history"}, size=len(text))
+        ds2.delete_bucket("gone")
+        for text in ('RETURN = query_bucket("gone");', 'RETURN = query_bucket_eventcount("gone");', 'RETURN = query_bucket(find_bucket("gon"));'):
+            kind, det = run_text(text, ds2)
+            record(u, text, kind, det, "resolution-history")
+            if kind not in ("Function", "other", "timeout"):
+                u.violation(f"query:wrong-error-class:Function-expected-got-{kind}", f"{text!r} after the bucket was deleted: unknown bucket must be a function error, got {kind} {det}", {"text": text, "part": "history"}, size=len(text))
     if names:
         u.sample({"part": "resolution", "function": names[0], "argument_counts": "0..arity+1", "types_per_position": [t for t, _ in TYPE_VALUES]}, cap=1)
     return u.result()
